@@ -52,6 +52,14 @@ fn gen_op(rng: &mut StdRng, d: &Driver, profile: &str) -> Value {
         if profile == "queries" && rng.gen_bool(0.45) {
             x = 97;
         }
+        if profile == "untrusted" && !dead.is_empty() && n_live > 0 && rng.gen_bool(0.45) {
+            let enc = ["json", "tok_hr", "tok_bin"][rng.gen_range(0..3)];
+            let mk = if enc == "json" { mutate::JSON_MUTS[rng.gen_range(0..mutate::JSON_MUTS.len())] } else { mutate::TOKEN_MUTS[rng.gen_range(0..mutate::TOKEN_MUTS.len())] };
+            return json!({"op": "deser_mut", "w": w, "dst": dead[0], "enc": enc, "mkind": mk, "mpos": rng.gen_range(0..4000)});
+        }
+        if profile == "untrusted" && dead.is_empty() && rng.gen_bool(0.3) {
+            return json!({"op": "drop", "w": live[rng.gen_range(0..live.len())]});
+        }
         if profile == "par" {
             // grow a few large tables, then query them in parallel on different pools
             if !crowded && !many_issued && rng.gen_bool(0.35) {
